@@ -332,9 +332,7 @@ func vC08PickTTL(r *rand.Rand, theme int) uint32 {
 	case 2:
 		return long[r.Intn(len(long))]
 	}
-	// only the dedicated theme publishes TTLs above 12 h (the class of the known finding), so that
-	// every other scenario is judged strictly
-	all := append(append(append([]uint32{}, short...), mid...), upTo12h...)
+	all := append(append(append(append([]uint32{}, short...), mid...), upTo12h...), 43201, 172800)
 	return all[r.Intn(len(all))]
 }
 
@@ -589,10 +587,7 @@ func (l *vC08Lab) scenario(idx int) {
 			}
 		}
 	}
-	fkey := ""
-	if l.over12h {
-		fkey = "lease-12h-ceiling-answer-cut"
-	}
+	fkey := "" // no known finding is tolerated
 	kind := "lab"
 	if deep {
 		kind += "-deep"
